@@ -2111,7 +2111,12 @@ func (p *printer) printExpr(expr js_ast.Expr, level js_ast.L, flags printExprFla
 				continue
 			}
 
-			p.printSpaceBeforeIdentifier()
+			if n := len(p.js); n > 0 && p.js[n-1] == '-' {
+				// "-" is a name character in JSX: "<a b- c/>" must not be printed as "<a b-c/>"
+				p.print(" ")
+			} else {
+				p.printSpaceBeforeIdentifier()
+			}
 			if mangled, ok := property.Key.Data.(*js_ast.ENameOfSymbol); ok {
 				name := p.mangledPropName(mangled.Ref)
 				p.addSourceMappingForName(property.Key.Loc, name, mangled.Ref)
